@@ -834,3 +834,27 @@ N("loss: publish alarms cancelled with a try per entry instead of the None test"
             request.alarm = None
         # Then, invoke errbacks anyway if we do not persist state
 """)])
+
+# ---- positive examples for rule sites that no variant reached (tools/ruleaudit.py) ----
+B("CONNACK handler fires on a path that does not test the return code", ["C04"],
+  [(BASE, "        if response.resultCode == 0:\n            self.state = self.CONNECTED", "        if response.session == 0:\n            self.state = self.CONNECTED")], {"C04": ["K2"]})
+B("doPublish queues the request without encoding it", ["C05"],
+  [(PS, "        try:\n            request.encode()\n        except Exception as e:\n            return defer.fail(e)\n\n        self.factory.queuePublishTx", "        self.factory.queuePublishTx")], {"C05": ["R-ID"]})
+B("handlePUBREC reassigns the identifier of the registered request", ["C05"],
+  [(PS, "            request.alarm.cancel()\n            del self.factory.windowPublish[self.addr][response.msgId]\n            reply = PUBREL()", "            request.alarm.cancel()\n            request.msgId = response.msgId\n            del self.factory.windowPublish[self.addr][response.msgId]\n            reply = PUBREL()")], {"C05": ["ID-KEY"]})
+B("handlePUBREL catches IndexError instead of KeyError", ["C06"],
+  [(PS, "            msg = self.factory.windowPubRx[self.addr][response.msgId]\n        except KeyError as e:", "            msg = self.factory.windowPubRx[self.addr][response.msgId]\n        except IndexError as e:")], {"C06": ["P2"]})
+B("handlePUBREC registers the PUBREL but never sends it", ["C09"],
+  [(PS, "            self.factory.windowPubRelease[self.addr][reply.msgId] = reply\n            self._retryRelease(reply, False)\n", "            self.factory.windowPubRelease[self.addr][reply.msgId] = reply\n")], {"C09": ["Q-ORDER"]})
+B("clean loss re-binds the whole queue registry", ["C10"],
+  [(PS, "            queue = self.factory.queuePublishTx[self.addr]\n            while queue:", "            self.factory.queuePublishTx = {self.addr: self.factory.queuePublishTx[self.addr]}\n            queue = self.factory.queuePublishTx[self.addr]\n            while queue:")], {"C10": ["W-FIFO"]})
+B("loss path re-sends the pending publishes", ["C13"],
+  [(PS, "        for _, request in self.factory.windowPublish[self.addr].items():\n            if request.alarm is not None:\n                request.alarm.cancel()\n                request.alarm = None\n", "        for _, request in self.factory.windowPublish[self.addr].items():\n            if request.alarm is not None:\n                request.alarm.cancel()\n                request.alarm = None\n            self.transport.write(bytes(request.encoded))\n")], {"C13": ["R-LOSS"]})
+B("state assigned a value that is no state object", ["C14"],
+  [(BASE, "        else:\n            self.state = self.IDLE\n            if response.resultCode < len(MQTT_CONNECT_CODES):", "        else:\n            self.state = None\n            if response.resultCode < len(MQTT_CONNECT_CODES):")], {"C14": ["M-STATEVAL"]})
+B("disconnect() does not go through the state object", ["C14"],
+  [(BASE, "        self.state.disconnect(request)", "        self.doDisconnect(request)")], {"C14": ["M-DISPATCH"]})
+B("publish() dispatches the subscribe operation of the state", ["C14"],
+  [(PS, "        return self.state.publish(request)", "        return self.state.subscribe(request)")], {"C14": ["M-DISPATCH"]})
+B("handlePINGRESP raises on every PINGRESP", ["C15"],
+  [(BASE, "        log.debug(\"<== {packet:7}\", packet=\"PINGRESP\")\n        if self._pingReq.alarm:", "        log.debug(\"<== {packet:7}\", packet=\"PINGRESP\")\n        raise MQTTStateError(\"unexpected PINGRESP\")\n        if self._pingReq.alarm:")], {"C15": ["Q3"]})
